@@ -85,7 +85,14 @@ SOURCES = {
     "E": {"files": {"e.emb": A_TEXT}, "main": "e.emb"},
     "F": {"files": {"f.emb": F_TEXT}, "main": "f.emb"},
 }
+# two source sets whose files have the *same names* but differ in the imported module's C++ namespace and layout
+_N_DEP = '[$default byte_order: "LittleEndian"]\n[(cpp) namespace: "vendor::%s"]\nenum Kind:\n  KA = %d\nstruct Header:\n  0 [+%d]  UInt  h\n'
+_N_MAIN = ('import "dep.emb" as dep\n[$default byte_order: "LittleEndian"]\n[(cpp) namespace: "app"]\n'
+           "struct Nn:\n  0 [+%d]  dep.Header  hdr\n  4 [+1]  dep.Kind  kind\n  let isk = kind == dep.Kind.KA\n")
+SOURCES["N1"] = {"files": {"n.emb": _N_MAIN % 1, "dep.emb": _N_DEP % ("v1", 1, 1)}, "main": "n.emb"}
+SOURCES["N2"] = {"files": {"n.emb": _N_MAIN % 2, "dep.emb": _N_DEP % ("v2", 2, 2)}, "main": "n.emb"}
 OPS = ["compile:A", "compile:B", "compile:C", "compile:D", "compile:E", "compile:F", "split:A", "split:B", "format:A", "format:C"]
+OPS2 = ["compile:N1", "compile:N2", "split:N1", "split:N2", "compile:B"]
 HASH_SOURCES = dict(SOURCES)
 HASH_SOURCES["G"] = {"files": {"g.emb": G_TEXT.replace("  let r = q +\n", "")}, "main": "g.emb"}
 _imps = {"i%d.emb" % k: "struct S%s:\n  0 [+1]  UInt  x\n" % "abcdef"[k].upper() + "x" for k in range(6)}
@@ -161,8 +168,9 @@ _BASE = {}
 
 
 def setup(tier):
-    fresh = worker([[op] for op in OPS], True)
-    _BASE["baseline"] = {op: res[0]["result"] for op, res in zip(OPS, fresh)}
+    ops = OPS + [o for o in OPS2 if o not in OPS]
+    fresh = worker([[op] for op in ops], True)
+    _BASE["baseline"] = {op: res[0]["result"] for op, res in zip(ops, fresh)}
 
 
 def bounds(tier):
@@ -178,6 +186,9 @@ def gen_cases(tier):
     for a in OPS:
         for bb in OPS:
             yield {"kind": "histories", "prefix": [a, bb], "max_len": L, "preload": True}
+    # same file names, different contents: every history of length <= 3 over the two sets (and one unrelated compile)
+    for first in OPS2:
+        yield {"kind": "histories", "prefix": [first], "max_len": 3, "preload": True, "ops": OPS2}
     for name in sorted(HASH_SOURCES):
         for lo in range(0, b["hash_seeds"], 4):
             yield {"kind": "hashseed", "source": name, "seeds": [seed0 + s for s in range(lo, lo + 4)]}
@@ -197,12 +208,13 @@ def worker(histories, preload):
 def check_histories(case):
     L = case["max_len"]
     hists = []
+    ops = case.get("ops", OPS)
     if not case["prefix"]:
-        hists = [[op] for op in OPS]
+        hists = [[op] for op in ops]
     else:
         hists.append(list(case["prefix"]))
-        for n in range(1, L - 1):
-            for tail in itertools.product(OPS, repeat=n):
+        for n in range(1, L - len(case["prefix"]) + 1):
+            for tail in itertools.product(ops, repeat=n):
                 hists.append(list(case["prefix"]) + list(tail))
     if "baseline" not in _BASE:
         setup("quick")
